@@ -38,7 +38,7 @@ def interesting_scalar(rng, k):
 def gen_path(rng, mode, thorough):
     if mode == 1:
         return ("sid", rng.choice([0, 1, (1 << 32) - 1, rng.getrandbits(32)]))
-    n = rng.choice([0, 1, 2, 3, 13, 255, 256, rng.randrange(0, 64)] + ([1000, 4093] if thorough else []))
+    n = rng.choice([0, 1, 2, 3, 13, 255, 256, rng.randrange(0, 64), 2031, 2040, 3000] + ([1000, 4093] if thorough else []))
     return ("path", bytes(rng.getrandbits(8) for _ in range(n)))
 
 
@@ -182,10 +182,10 @@ def c08_cases(rng, thorough):
         ep, ev = enc_path(p), enc_value(code, v)
         hdr = vss_header(rng, 0, code)
         bg = bytes(hdr) + ep + ev
-        ops = ["buf a " + hexs(bg), "vss_calc a 0", "vss_getpath a 0", "vss_getdata a 0 1"]
+        ops = ["buf a " + hexs(bg), "vss_calc a 0", "vss_getpath a 0", "vss_getdata a 0 1", "dump a"]
         idx = len(cs.cases)
         cs.add(ops, {"what": "decode", "mode": 0, "code": code, "class": "longest-path-%d" % len(p[1]), "len": len(ev)})
-        expect[idx] = ["v %d" % len(ep), "path %d %s" % (len(p[1]), hexs(p[1])), show_val(v)]
+        expect[idx] = ["v %d" % len(ep), "path %d %s" % (len(p[1]), hexs(p[1])), show_val(v), "d " + hexs(bg)]
     return cs, expect
 
 
@@ -265,6 +265,8 @@ def check(rep, prop, tier, seed):
                     "\"Avtp_Vss_GetVSSDataStringArrayLength\", \"Avtp_Vss_DeserializeStringArray\", \"Avtp_Vss_GetVssData\", "
                     "\"Avtp_Vss_SetVssPath\", \"Avtp_Vss_SetVssData\", \"Avtp_Vss_SerializeStringArray\"]", "by decide")]
     general = []
+    if prop == "C08":
+        obligations += [("readers_store_only_through_result_parameters", "checkReaders Gen.vss = true", "by decide")]
     if prop in ("C07", "C08"):
         obligations += [("path_size_return_type_holds_65537",
                          "(Gen.vss.algoFacts.lookup \"Avtp_Vss_CalcVssPathLength\").map (fun x => decide (17 ≤ x.1)) = some true", "by decide")]
@@ -288,7 +290,9 @@ def check(rep, prop, tier, seed):
         atoms_expr = atoms_expr.replace("(\"count-returns-16-bit\", (Gen.vss.algoFacts.lookup \"Avtp_Vss_GetVSSDataStringArrayLength\").map (·.1) == some 16)", "(\"dummy\", true)")
     if prop == "C10":
         atoms_expr = atoms_expr.replace("(\"pad-memset-scale-1\", (Gen.vss.algoFacts.lookup \"Avtp_Vss_Pad\").map (·.2) == some [1]), ", "")
-    res = pipeline.proof_stage(rep, prop, ["O1722.Gen.Data", "O1722.Props.Vss"], obligations, general, atoms_expr)
+    if prop == "C08":
+        atoms_expr = atoms_expr[:-1] + ", (\"Vss\", [(\"readers-store-only-results\", checkReaders Gen.vss)])]"
+    res = pipeline.proof_stage(rep, prop, ["O1722.Gen.Data", "O1722.Props.Vss", "O1722.Props.Concurrency"], obligations, general, atoms_expr)
     spec, exe = common.build_harness("asan")
     cs, expect = GEN[prop](rng, thorough)
     bad = common.differential(exe, cs)
